@@ -14,10 +14,4 @@
 ; which keys are document keys, and of which collection (characterised in docs.smt2)
 (declare-fun isDocKey (Str) Bool)
 (declare-fun docCollOf (Str) Str)
-; (for collection names free of ';' - the domain of the properties; without that side condition "c:a;d:;d:b" is a
-; document key of both "a" and "a;d:", and the axiom would be inconsistent)
 (declare-fun noSemi (Str) Bool)
-(assert (forall ((c Str) (id Str)) (! (=> (noSemi c) (and (isDocKey (docKey c id)) (= (docCollOf (docKey c id)) c))) :pattern ((docKey c id)))))
-; nothing in the key space of an index (of a ';'-free collection) is a document key
-(assert (forall ((c Str) (f Str) (k Str)) (! (=> (and (noSemi c) (hasPrefix k (idxKS c f))) (not (isDocKey k))) :pattern ((hasPrefix k (idxKS c f))))))
-(assert (forall ((c Str)) (! (not (isDocKey (collKey c))) :pattern ((collKey c)))))
